@@ -9,7 +9,7 @@
 (* body may raise at any point (BodyError).  How the io stack buffers is left   *)
 (* open: a raw write may carry any part of the bytes accepted so far.           *)
 (*                                                                              *)
-(* The design: create tmp_<i> exclusively with the lowest free i; write; close; *)
+(* The design: create a temp exclusively under any free name; write; close;    *)
 (* if and only if the body finished and closing succeeded, rename the temp over *)
 (* the destination; in every other handled case unlink the temp and re-raise.   *)
 EXTENDS AtomicWriteOps, TLC, Json
@@ -17,7 +17,9 @@ EXTENDS AtomicWriteOps, TLC, Json
 CONSTANTS W,          \* writers
           MaxBody,    \* at most this many body write calls (1 byte each) per writer
           Faults,     \* number of injected OSErrors per behaviour
-          Stale,      \* indexes of temp files that may be lying around at the start
+          Stale,      \* names of temp-like files that may be lying around at the start
+          NNames,     \* names 1..NNames are available for temp files
+          AnyName,    \* TRUE: a writer tries any name it has not tried; FALSE: the lowest such name
           DirMissing, \* TRUE: also start from a missing directory
           AnySplit,   \* TRUE: a raw write may carry any non-empty part of the pending bytes
           KeepHist,   \* TRUE: remember the behaviour (for enumerating schedules)
@@ -52,7 +54,10 @@ Do(e) == /\ Guard(St, e) = ""
 
 (* ---- one writer's own steps --------------------------------------------------- *)
 Mkdir(w)     == \E res \in {"ok", "exists"} : Do(Ev(w, "mkdir", res, 0, 0))
-TryOpen(w)   == \E res \in {"ok", "exists"} : Do(Ev(w, "open", res, 0, wr[w].i))
+Untried(w)   == (1..NNames) \ wr[w].tried
+Picks(w)     == IF AnyName \/ Untried(w) = {} THEN Untried(w)
+                ELSE {CHOOSE k \in Untried(w) : \A j \in Untried(w) : k <= j}
+TryOpen(w)   == \E k \in Picks(w), res \in {"ok", "exists"} : Do(Ev(w, "open", res, 0, k))
 BodyCall(w)  == wr[w].acc < MaxBody /\ Do(Ev(w, "bcall", "ok", 1, 0))
 RawWrite(w)  == \E n \in (IF AnySplit THEN 1..(wr[w].acc - wr[w].raw) ELSE {wr[w].acc - wr[w].raw}) :
                     Do(Ev(w, "write", "ok", n, 0))
@@ -70,7 +75,7 @@ BodyError(w) == Do(Ev(w, "bodyerr", "ok", 0, 0))
 Reenter(w)   == w \in Reusers /\ wr[w].round < MaxRounds /\ Do(Ev(w, "reenter", "ok", 0, 0))
 Crash(w)     == Do(Ev(w, "crash", "ok", 0, 0))
 Fault(w)     == \/ Do(Ev(w, "mkdir", "fault", 0, 0))
-                \/ Do(Ev(w, "open", "fault", 0, wr[w].i))
+                \/ \E k \in Picks(w) : Do(Ev(w, "open", "fault", 0, k))
                 \/ \E n \in (IF AnySplit THEN 1..(wr[w].acc - wr[w].raw) ELSE {wr[w].acc - wr[w].raw}) :
                        Do(Ev(w, "write", "fault", n, 0))
                 \/ Do(Ev(w, "close", "fault", 0, 0))
